@@ -128,6 +128,9 @@ func newFixture(dir string) (*fixture, error) {
 		f := &fixture{base: base, ports: map[string]int{}}
 		var cf strings.Builder
 		fmt.Fprintf(&cf, "# %s\n", token("root/Casketfile"))
+		// a site rooted elsewhere, declared first: the Casketfile must be hidden on every site
+		// whose root holds it, whatever comes before it in the file
+		fmt.Fprintf(&cf, "127.0.0.1:%d {\n\tbind 127.0.0.1\n\ttls off\n\troot %s\n}\n", hx.FreePort(), filepath.Join(base, "out"))
 		for _, b := range browseKinds {
 			for _, p := range []bool{false, true} {
 				port := hx.FreePort()
@@ -153,6 +156,18 @@ func newFixture(dir string) (*fixture, error) {
 		s, err := hx.StartHTTP(cf.String(), cfp)
 		if err == nil {
 			f.site = s
+			// the hidden check has run once on every site; now the Casketfile is replaced the
+			// way editors save (new file renamed over the old one: same name, another inode) -
+			// it stays hidden for everything that follows
+			for _, port := range f.ports {
+				addr := fmt.Sprintf("127.0.0.1:%d", port)
+				hx.OneShot(addr, "GET", "/Casketfile", addr)
+				hx.OneShot(addr, "GET", "/s/Casketfile", addr)
+			}
+			tmp := cfp + ".new"
+			if err := os.WriteFile(tmp, []byte(cf.String()), 0o644); err == nil {
+				os.Rename(tmp, cfp)
+			}
 			return f, nil
 		}
 		err2 = err
